@@ -41,6 +41,7 @@ def run(ctx):
     rule_order(ctx, F)
     rule_lookup(ctx, F)
     rule_rollback(ctx, F)
+    rule_trunc(ctx, F)
 
 
 SEGS = [("new::base::name::absolute::parse_segment", "size", +1), ("new::base::name::reversed::parse_segment", "offset", -1)]
@@ -606,3 +607,32 @@ def rule_rollback(ctx, F):
            "MessageBuilder::push returns an error after build_in_message may have registered names in the compressor, "
            "without resetting it (the source carries a TODO): the stale entries match whatever is written at those "
            "offsets next, and a later name is compressed against bytes that are not the name it remembers", b.where(builds[0]))
+
+
+# ---------------------------------------------------------------------------
+# truncating the message also resets what the header says about it
+# ---------------------------------------------------------------------------
+
+def rule_trunc(ctx, F):
+    R = "C19.trunc"
+    ctx.floor(R, 1)
+    bs = [b for p, b in F.bodies.items() if re.match(r"^new::base::build::message::MessageBuilder::<.*>::truncate$", p)]
+    if not ctx.anchor(R, "new MessageBuilder::truncate", len(bs) == 1):
+        return
+    b = bs[0]
+    off = cnt = False
+    for bi in b.reachable_blocks():
+        for st in b.blocks[bi]["s"]:
+            if st[0] == "=" and len(st[1]) >= 3:
+                names = [pr[2] for pr in st[1][1:] if isinstance(pr, list) and pr[0] == "."]
+                if names[-1:] == ["offset"] and const_value(b.term_of_rvalue(st[2])) == 0:
+                    off = True
+                if "counts" in names:
+                    cnt = True
+        t = b.blocks[bi]["t"]
+        if t["k"] == "call" and t.get("dest") and any(isinstance(pr, list) and pr[0] == "." and pr[2] == "counts" for pr in t["dest"][1:]):
+            cnt = True
+    ctx.anchor(R, "truncate resets the write offset", off, b.where())
+    ctx.ob(R, b, "dropping the contents also resets the section counts", cnt,
+           "MessageBuilder::truncate sets offset = 0 (all questions and records are gone) but leaves header.counts as they "
+           "were: the finished message announces records it does not contain and no parser can read it")
